@@ -118,6 +118,25 @@ Proof. exact cancelled_keepalive_stores_nothing. Qed.
 Theorem C13_late_cancel_ignored : forall me o late disc st, late || disc = true -> ka_react me o late disc st = st.
 Proof. exact late_cancel_ignored. Qed.
 
+(* "a peer going silent at any time", also after the caller cancelled the context it passed to
+   Connect: the keep-alive context of every connection, the first included, descends from the
+   loop's context AFTER it was replaced by Background (reconnclient.go:97-101 before :111), so
+   ending the caller's context at any point changes nothing for the keep-alive *)
+Theorem C13_caller_cancel_after_connect_irrelevant : forall I T cc peer, 0 < I ->
+  rc_conn_keepalive I T cc peer = rc_keepalive I T peer.
+Proof. exact caller_cancel_after_connect_irrelevant. Qed.
+
+(* "as long as EACH response arrives": a Ping completes only on a PINGRESP that arrived after
+   its own PINGREQ (fresh one-slot channel per Ping, non-blocking send by the reader); surplus
+   PINGRESPs never answer a later ping, so a peer that answered n pings, however often, and then
+   stays silent is reported after exactly n+1 PINGREQs *)
+Theorem C13_stale_pingresp_inert : forall I T pre u post, 0 < I ->
+  Forall (fun ur => snd ur <> O) pre ->
+  wire_outcomes (pre ++ (u, O) :: post) = answered (repeat 0 (length pre)) ++ Never :: wire_outcomes post /\
+  ko_result (keepalive I T (wire_outcomes (pre ++ (u, O) :: post))) = KA_returned EPingTimeout /\
+  pings (keepalive I T (wire_outcomes (pre ++ (u, O) :: post))) = S (length pre).
+Proof. exact stale_pingresp_inert. Qed.
+
 (* time.NewTicker's panic on a non-positive interval is unreachable from the reconnecting client *)
 Theorem C13_no_panic_from_reconnect : forall I T s o, rc_keepalive I T s = Some o -> ko_result o <> KA_panic.
 Proof. exact rc_keepalive_no_panic. Qed.
@@ -146,3 +165,5 @@ Print Assumptions C13_cancelled_stores_nothing.
 Print Assumptions C13_late_cancel_ignored.
 Print Assumptions C13_no_panic_from_reconnect.
 Print Assumptions C13_model_times_are_lower_bounds.
+Print Assumptions C13_caller_cancel_after_connect_irrelevant.
+Print Assumptions C13_stale_pingresp_inert.
